@@ -16,8 +16,7 @@ LEVEL_NOTE = "Trusted: the double-sum quadrature and geometry in this file. make
 RULE = "case = (ri, nr, n_theta, mode count) polar basis or (ri, nr, mode count, dim, mask) Cartesian rendering; non-trivial always; distinct by parameters"
 ASSUMPTIONS = ["pixel (row i, column j) has x = (j - (dim-1)/2)/(dim/2), y likewise from the row; theta = atan2(y, x)",
                "Kolmogorov structure function 6.8839 (|x - x'|/2)^(5/3) with the pupil radius as unit length"]
-REQUIRED = ["karhunenLoeve.py:gkl_basis", "karhunenLoeve.py:gkl_sfi", "karhunenLoeve.py:gkl_kernel", "karhunenLoeve.py:gkl_fcom", "karhunenLoeve.py:make_kl",
-            "karhunenLoeve.py:pol2car", "karhunenLoeve.py:pcgeom"]
+REQUIRED = ["karhunenLoeve.py:gkl_basis", "karhunenLoeve.py:gkl_sfi", "karhunenLoeve.py:make_kl"]
 REQUIRED_COUNTERS = ["polar_bases", "double_sum_entries", "cartesian_renderings", "repeat_generations_same_grid"]
 TIMEOUT = {"quick": 900, "thorough": 7200}
 
